@@ -234,7 +234,7 @@ func clientSupervisor(c *engine.Ctx, loginLoop *ssa.Function) *ssa.Function {
 			continue
 		}
 		in := false
-		for _, a := range allAnon(f) {
+		for _, a := range lexicalAnon(f) {
 			if len(engine.CallsTo(a, lo)) > 0 {
 				in = true
 			}
@@ -569,4 +569,80 @@ func argsOfType(call ssa.CallInstruction, pred func(types.Type) bool) []ssa.Valu
 		}
 	}
 	return out
+}
+
+// userParams: the declared parameters of f without the receiver.
+func userParams(f *ssa.Function) []*ssa.Parameter {
+	if f.Signature.Recv() != nil && len(f.Params) > 0 {
+		return f.Params[1:]
+	}
+	return f.Params
+}
+
+// stepThatDoes finds the instruction of h through which h does something: the instruction itself when pred holds for it,
+// a call that is handed a closure doing it, or a call of a function of h's family (a step split out of h, see allAnon)
+// that does it, directly or through its own steps. The last match in source order is returned (nil if none).
+func stepThatDoes(h *ssa.Function, pred func(ssa.Instruction) bool) ssa.Instruction {
+	all := stepsThatDo(h, pred)
+	if len(all) == 0 {
+		return nil
+	}
+	return all[len(all)-1]
+}
+
+// stepsThatDo: every such instruction of h, in source order.
+func stepsThatDo(h *ssa.Function, pred func(ssa.Instruction) bool) []ssa.Instruction {
+	fam := map[*ssa.Function]bool{}
+	for _, g := range allAnon(h) {
+		fam[g] = true
+	}
+	var does func(g *ssa.Function, depth int) bool
+	does = func(g *ssa.Function, depth int) bool {
+		if g == nil || g.Blocks == nil || depth > 3 {
+			return false
+		}
+		hit := false
+		engine.ForEachInstr(g, func(in ssa.Instruction) {
+			if hit {
+				return
+			}
+			if pred(in) {
+				hit = true
+				return
+			}
+			if call, ok := in.(ssa.CallInstruction); ok {
+				for _, a := range call.Common().Args {
+					if mc, ok := a.(*ssa.MakeClosure); ok {
+						if cf, ok := mc.Fn.(*ssa.Function); ok && does(cf, depth+1) {
+							hit = true
+						}
+					}
+				}
+				if cf := engine.CalleeFn(call); cf != nil && fam[cf] && does(cf, depth+1) {
+					hit = true
+				}
+			}
+		})
+		return hit
+	}
+	var sites []ssa.Instruction
+	engine.ForEachInstr(h, func(in ssa.Instruction) {
+		hit := pred(in)
+		if call, ok := in.(ssa.CallInstruction); ok && !hit {
+			for _, a := range call.Common().Args {
+				if mc, ok := a.(*ssa.MakeClosure); ok {
+					if cf, ok := mc.Fn.(*ssa.Function); ok && does(cf, 1) {
+						hit = true
+					}
+				}
+			}
+			if cf := engine.CalleeFn(call); cf != nil && fam[cf] && does(cf, 1) {
+				hit = true
+			}
+		}
+		if hit {
+			sites = append(sites, in)
+		}
+	})
+	return sites
 }
